@@ -382,7 +382,58 @@ class Session:
                 p.set_value('optimization_algorithm', 'simple_bounds')
                 b = bio.BIOGEME(self.db, e, parameters=p)
                 b.modelName = 'pan'
-                b.estimate(run_bootstrap=True)
+                # seam: what the library draws for each replication is recorded
+                samples = []
+                real_sampler = self.db.sample_individual_map_with_replacement
+
+                def recording_sampler(*a_, **k_):
+                    out_ = real_sampler(*a_, **k_)
+                    samples.append([float(v_) for v_ in out_.index.to_list()])
+                    return out_
+                self.db.sample_individual_map_with_replacement = recording_sampler
+                try:
+                    rb_ = b.estimate(run_bootstrap=True)
+                finally:
+                    del self.db.sample_individual_map_with_replacement
+                if not self.uses_draws() and rb_.algorithm_has_converged() and getattr(b, 'bootstrap_results', None) is not None:
+                    # each replication is an estimation on ITS sample of individuals: started at the estimates, it may
+                    # not end below its start on that sample, and it cannot stay exactly at the estimates when the
+                    # likelihood of its sample is far from stationary there
+                    names_ = list(b.free_beta_names)
+                    xs = {n_: float(v_) for n_, v_ in rb_.get_beta_values().items()}
+
+                    def ll_of(sample, pt):
+                        full = dict(betas0)
+                        full.update(pt)
+                        per = self.reference(lform, full)
+                        return sum(per[i_] for i_ in sample) - len(sample) * 0.1 * sum(full[n_] ** 2 for n_ in pen_names)
+                    if len(samples) != len(b.bootstrap_results):
+                        ctx.fail('I09.boot', f'{len(b.bootstrap_results)} bootstrap replications for {len(samples)} samples drawn')
+                    known = {r_['pid'] for r_ in self.rows}
+                    for smp, xb in zip(samples, b.bootstrap_results):
+                        if any(i_ not in known for i_ in smp) or len(smp) != len(known):
+                            ctx.fail('I09.boot', f'bootstrap sample {smp} is not a sample of the {len(known)} individuals {sorted(known)}')
+                        pt = {n_: float(v_) for n_, v_ in zip(names_, xb)}
+                        f_at_est, f_at_rep = ll_of(smp, xs), ll_of(smp, pt)
+                        if f_at_rep < f_at_est - 1e-7 * max(1.0, abs(f_at_est)):
+                            ctx.fail('I09.boot', f'bootstrap replication on individuals {smp} ends at {pt} where the likelihood of '
+                                                 f'that sample is {f_at_rep!r}, below its value {f_at_est!r} at the start {xs}')
+                        g2 = 0.0
+                        for n_ in names_:
+                            h_ = 1e-5 * max(1.0, abs(xs[n_]))
+                            up, dn = dict(xs), dict(xs)
+                            up[n_] += h_
+                            dn[n_] -= h_
+                            lo_, hi_ = -6.0, 6.0
+                            g_ = (ll_of(smp, up) - ll_of(smp, dn)) / (2 * h_)
+                            step_ = min(max(xs[n_] + g_, lo_), hi_) - xs[n_]
+                            g2 = max(g2, abs(step_) * max(1.0, abs(xs[n_])) / max(1.0, abs(f_at_est)))
+                        if g2 > 0.05 and all(pt[n_] == xs[n_] for n_ in names_):
+                            ctx.fail('I09.boot', f'bootstrap replication on individuals {smp} returned exactly the estimates '
+                                                 f'{xs} although the likelihood of that sample is not stationary there '
+                                                 f'(relative projected gradient {g2!r}): the sample was not used')
+                        if sorted(smp) != sorted(known):
+                            ctx.probe('bootstrap replication on a sample that differs from the data')
                 betas = self.betas_at(k)
                 want = self.reference(lform, betas)
                 x = [betas[n] for n in b.free_beta_names]
